@@ -128,6 +128,18 @@ CLAIMED = {
         note="Trusted: TLC; views are projected from __dict__, run counters and handler logs (never by reading "
              "attributes). Known finding F12 (class-level caching of resolved names).",
         design="4/C10"),
+    "C11": dict(
+        technique=TLA + "Deferred.tla specifies reads, writes, deletion, delegate swaps and the notifications of "
+                  "DelegatesTo / PrototypedFrom attributes for every prefix style; DeferredMC checks the mirror / "
+                  "independence / stale-delegate invariants on all histories to the bound; recorded steps on real "
+                  "objects (state projected from __dict__ and the delegates, all deferring attributes read after every "
+                  "step, handler calls) are judged by TLC",
+        text="All histories to depth 4/5 in TLC; conformance on seeded histories (24k steps quick) over 8 deferring "
+             "attributes (2 kinds x 4 prefix styles), 2 candidate delegates and None, invalid assignments, and three "
+             "two-hop chains with renaming at either hop.",
+        note="Trusted: TLC; whether a swap of the delegate or a deletion itself notifies is left open (as in the "
+             "statement); listenable=True default. F5 fixed in /repo.",
+        design="4/C11"),
     "C12": dict(
         technique=TLA + "Observe.tla: an observed property is a permanent registration of its dependency expression; "
                   "PropValue computes its value from the heap, Relevant decides which mutations concern it; every read of "
